@@ -50,6 +50,33 @@ macro_rules! uint_ty {
 					}),
 				}
 			}
+			// a sampler that went through its serialised form (construct, serialise, deserialise, THEN sample): whatever the object caches must survive
+			"serde" | "serdesampler" => {
+				let text = if via == "serde" {
+					match if incl { Uniform::<$ty>::try_new_inclusive(lo, hi) } else { Uniform::<$ty>::try_new(lo, hi) } {
+						Err(e) => return Ok(format!("err:{:?}", e)),
+						Ok(d) => serde_json::to_string(&d).map_err(|_| Bad)?,
+					}
+				} else {
+					match if incl { <UniformInt<$ty> as UniformSampler<$ty>>::try_new_inclusive(lo, hi) } else { <UniformInt<$ty> as UniformSampler<$ty>>::try_new(lo, hi) } {
+						Err(e) => return Ok(format!("err:{:?}", e)),
+						Ok(d) => serde_json::to_string(&d).map_err(|_| Bad)?,
+					}
+				};
+				if via == "serde" {
+					let d: Uniform<$ty> = serde_json::from_str(&text).map_err(|_| Bad)?;
+					Ok(match with_mock(&words, |r| draw::<$ty, _>(r, &d, n)) {
+						Some((v, c)) => fmt(v, c),
+						None => "panic".into(),
+					})
+				} else {
+					let d: UniformInt<$ty> = serde_json::from_str(&text).map_err(|_| Bad)?;
+					Ok(match with_mock(&words, |r| (0..n).map(|_| d.sample(r)).collect::<Vec<$ty>>()) {
+						Some((v, c)) => fmt(v, c),
+						None => "panic".into(),
+					})
+				}
+			}
 			"new" => Ok(match with_mock(&words, |r| {
 				let d = if incl { Uniform::<$ty>::new_inclusive(lo, hi) } else { Uniform::<$ty>::new(lo, hi) };
 				draw::<$ty, _>(r, &d, n)
